@@ -66,8 +66,13 @@ fn handle(req: &Value) -> Value {
                     let rt_str = serde_json::from_str::<R>(&s).map(|b| b == r).unwrap_or(false);
                     // same body through from_value (different serde code path: no borrowed strs)
                     let via_value = serde_json::from_str::<Value>(text).ok().and_then(|v| serde_json::from_value::<R>(v).ok()).map(|b| b == r).unwrap_or(false);
+                    // the entry points a client really uses: from_slice (reqwest's .json()), from_reader (blocking bodies, files:
+                    // every string reaches the visitors as a transient &str), and the serialised bytes read back through a reader
+                    let via_slice = serde_json::from_slice::<R>(text.as_bytes()).map(|b| b == r).unwrap_or(false);
+                    let via_reader = serde_json::from_reader::<_, R>(text.as_bytes()).map(|b| b == r).unwrap_or(false);
+                    let rt_reader = serde_json::from_reader::<_, R>(serde_json::to_vec(&r).unwrap().as_slice()).map(|b| b == r).unwrap_or(false);
                     let displays: Vec<Value> = r.errors.as_ref().map(|es| es.iter().map(display_of).collect()).unwrap_or_default();
-                    json!({"ok": true, "reser": reser, "rt_value": rt_value, "rt_str": rt_str, "via_value": via_value, "displays": displays})
+                    json!({"ok": true, "reser": reser, "rt_value": rt_value, "rt_str": rt_str, "via_value": via_value, "via_slice": via_slice, "via_reader": via_reader, "rt_reader": rt_reader, "displays": displays})
                 }
             }
         }
